@@ -21,6 +21,7 @@ func init() {
 		},
 		Run: runC07,
 		Controls: []Control{
+			{Name: "sender-torn-down-before-routes-are-withdrawn", File: "protocols/bgp/server/fsm_address_family.go", Old: "\tf.adjRIBIn.Unregister(f.rib)\n\tf.rib.Unregister(f.adjRIBOut)\n\tf.adjRIBOut.Unregister(f.updateSender)\n\tf.updateSender.Destroy()\n", New: "\tf.rib.Unregister(f.adjRIBOut)\n\tf.adjRIBOut.Unregister(f.updateSender)\n\tf.updateSender.Destroy()\n\tf.adjRIBIn.Unregister(f.rib)\n", Expect: "withdraw-before-blocking-teardown"},
 			{Name: "manual-stop-droppable", File: "protocols/bgp/server/peer.go", Old: "\t\tfsm.sendEvent(ManualStop)\n", New: "\t\tselect {\n\t\tcase fsm.eventCh <- ManualStop:\n\t\tdefault:\n\t\t}\n", Expect: "stop-event-delivered"},
 			{Name: "event-helper-gives-up-after-timeout", File: "protocols/bgp/server/fsm.go", Old: "\tcase fsm.eventCh <- e:\n\tcase <-fsm.doneCh:\n\t}\n", New: "\tcase fsm.eventCh <- e:\n\tcase <-fsm.doneCh:\n\tcase <-time.After(time.Second):\n\t}\n", Expect: "stop-event-delivered"},
 			{Name: "notification-exit-without-uninit", File: "protocols/bgp/server/fsm_established.go", Old: "\tstopTimer(s.fsm.connectRetryTimer)\n\ts.uninit()\n\ts.fsm.con.Close()\n\ts.fsm.connectRetryCounter++\n\treturn newIdleState(s.fsm), \"Received NOTIFICATION\"", New: "\tstopTimer(s.fsm.connectRetryTimer)\n\ts.fsm.con.Close()\n\ts.fsm.connectRetryCounter++\n\treturn newIdleState(s.fsm), \"Received NOTIFICATION\"", Expect: "exit-established-uninit"},
@@ -39,6 +40,7 @@ func runC07(c *core.Ctx) {
 	p := c.P
 	uninitRest(c, p, uninit)
 	eventSendsNotDroppable(c, "stop-event-delivered", 3)
+	withdrawBeforeBlockingTeardown(c)
 }
 
 // exitEstablishedUninit: every return that leaves Established is dominated by uninit (shared by C07 and C23).
@@ -243,4 +245,77 @@ func uninitRest(c *core.Ctx, p *core.Prog, uninit *core.Fn) {
 		}
 	}
 	_ = token.NoPos
+}
+
+// withdrawBeforeBlockingTeardown: dispose() takes the session's contribution out of the shared tables (unregisters the
+// Adj-RIB-In from the Loc-RIB, which withdraws its routes; removes the contributing ASN / cluster ID) and tears the sending
+// side down.  The tear-down of the update sender waits for the sender goroutine (an unbuffered hand-off), which may be
+// stuck writing to a peer that stopped reading.  Rule: no call that can block on another goroutine (it sends on an
+// unbuffered channel field or waits on a WaitGroup, directly) precedes, on any path through dispose, one of the
+// withdrawal effects — otherwise a stalled peer keeps its routes in the Loc-RIB for as long as it likes.
+func withdrawBeforeBlockingTeardown(c *core.Ctx) {
+	const rule = "withdraw-before-blocking-teardown"
+	p := c.P
+	c.Floor(rule, 2)
+	f := c.MustFunc(srv + ".(*fsmAddressFamily).dispose")
+	if f == nil {
+		return
+	}
+	c.Analysed(f)
+	blocks := func(g *core.Fn) bool {
+		if g == nil || g.Decl.Body == nil {
+			return false
+		}
+		b := false
+		ast.Inspect(g.Decl.Body, func(n ast.Node) bool {
+			switch x := n.(type) {
+			case *ast.SendStmt:
+				if fv := core.FieldOf(g.Pkg, x.Chan); fv != nil {
+					b = true
+				}
+			case *ast.CallExpr:
+				if core.FuncKey(core.Callee(g.Pkg, x)) == "sync.(*WaitGroup).Wait" {
+					b = true
+				}
+			}
+			return true
+		})
+		return b
+	}
+	isBlocking := func(n ast.Node) bool {
+		return core.NodeHas(n, func(x ast.Node) bool {
+			call, ok := x.(*ast.CallExpr)
+			return ok && blocks(p.FnOf(core.Callee(f.Pkg, call)))
+		})
+	}
+	adjInF := p.Field(srv, "fsmAddressFamily", "adjRIBIn")
+	effects := []struct {
+		name string
+		is   func(call *ast.CallExpr) bool
+	}{
+		{"the Adj-RIB-In is unregistered from the Loc-RIB (routes withdrawn)", func(call *ast.CallExpr) bool {
+			sel, ok := call.Fun.(*ast.SelectorExpr)
+			return ok && sel.Sel.Name == "Unregister" && core.FieldOf(f.Pkg, sel.X) == adjInF && adjInF != nil
+		}},
+		{"the contributing ASN is removed", func(call *ast.CallExpr) bool {
+			return core.FuncKey(core.Callee(f.Pkg, call)) == "routingtable/vrf.(*VRF).RemoveContributingASN"
+		}},
+	}
+	g := p.CFG(f)
+	for _, ef := range effects {
+		isEffect := func(n ast.Node) bool {
+			return core.NodeHas(n, func(x ast.Node) bool {
+				call, ok := x.(*ast.CallExpr)
+				return ok && ef.is(call)
+			})
+		}
+		late, started := core.PathAvoidingFromS(g, isBlocking, func(ast.Node) bool { return false }, isEffect)
+		pos := f.Decl.Pos()
+		if len(late) > 0 {
+			pos = late[0].Pos()
+		}
+		_ = started
+		c.Check(len(late) == 0, rule, f.Name()+": "+ef.name+" before anything that can block", pos,
+			"a call that waits for another goroutine (the update sender's tear-down) comes first: when the peer has stopped reading, the sender is stuck in its write, dispose() blocks there and the session's routes stay in the Loc-RIB (and its ASN keeps contributing) although the session has left Established")
+	}
 }
